@@ -76,7 +76,7 @@ fn splice(bs: &[u8], from: usize, to: usize, with: &[u8]) -> Vec<u8> { let mut v
 pub const HUGE: [u64; 10] = [1 << 16, (1 << 31) - 1, 1 << 31, (1 << 32) - 1, 1 << 32, 1 << 40, (1 << 63) - 1, 1 << 63, u64::MAX - 1, u64::MAX];
 
 /// structure-aware mutations of one valid encoding; `cap` bounds the number of head-directed mutations
-pub fn mutate_cbor(seed: &[u8], rng: &mut Rng, cap: usize, out: &mut Vec<(String, Vec<u8>)>) {
+pub fn mutate_cbor(seed: &[u8], rng: &mut Rng, cap: usize, one_field: bool, out: &mut Vec<(String, Vec<u8>)>) {
     let n = seed.len();
     // truncation at every offset (every offset when short, all head boundaries + a sample otherwise)
     let heads = scan(seed).unwrap_or_default();
@@ -115,15 +115,16 @@ pub fn mutate_cbor(seed: &[u8], rng: &mut Rng, cap: usize, out: &mut Vec<(String
             for ai in [28u8, 29, 30, 31] { out.push(("ai-reserved".into(), splice(seed, o, he, &[(h.major << 5) | ai]))); }
         }
         // major-type swaps (same argument bytes)
-        for m in 0..8u8 { if m != h.major { let mut v = seed.to_vec(); v[o] = (m << 5) | (v[o] & 31); out.push(("major".into(), v)); } }
+        let full = cap >= 8;     // thorough: every variant; quick: a seeded sample of the cheap, numerous ones
+        for m in 0..8u8 { if m != h.major && (full || rng.chance(4, 7)) { let mut v = seed.to_vec(); v[o] = (m << 5) | (v[o] & 31); out.push(("major".into(), v)); } }
         // inserted break / null / undefined / tags / a stray item in front of this head
         for ins in [&[0xffu8][..], &[0xf6], &[0xf7], &[0xd8, 0x18], &[0xd9, 0x01, 0x02], &[0xc2], &[0x00], &[0x40], &[0x80], &[0xa0], &[0x9f], &[0x5f], &[0xf5]] {
-            out.push(("insert".into(), splice(seed, o, o, ins)));
+            if full || rng.chance(1, 2) { out.push(("insert".into(), splice(seed, o, o, ins))); }
         }
         // delete the item, duplicate the item, replace it by null / empty containers
         out.push(("delete".into(), splice(seed, o, h.end.min(n), &[])));
         if h.end <= n && h.end - o <= 200 { let item = seed[o..h.end].to_vec(); out.push(("dup-item".into(), splice(seed, o, o, &item))); }
-        for rep in [&[0xf6u8][..], &[0x80], &[0xa0], &[0x40], &[0x60], &[0x00], &[0x20], &[0x9f, 0xff], &[0xbf, 0xff], &[0x5f, 0xff]] { out.push(("replace".into(), splice(seed, o, h.end.min(n), rep))); }
+        for rep in [&[0xf6u8][..], &[0x80], &[0xa0], &[0x40], &[0x60], &[0x00], &[0x20], &[0x9f, 0xff], &[0xbf, 0xff], &[0x5f, 0xff]] { if full || rng.chance(1, 2) { out.push(("replace".into(), splice(seed, o, h.end.min(n), rep))); } }
         // definite -> indefinite container / chunked string, and back
         if h.ai != 31 && !h.inner && h.end <= n {
             match h.major {
@@ -166,12 +167,16 @@ pub fn mutate_cbor(seed: &[u8], rng: &mut Rng, cap: usize, out: &mut Vec<(String
         if h.arg > 0 { out.push(("len-minus1".into(), splice(seed, h.off, h.off + h.hlen, &enc_min(h.major, h.arg - 1)))); }
     }
     // a map structure with one more field (every small key) holding an empty collection, and the one-field maps themselves
-    if heads[0].major == 5 && heads[0].ai != 31 && heads[0].end == n && n <= 400 {
+    if heads[0].major == 5 && heads[0].ai != 31 && heads[0].end == n && n <= 400 && (one_field || cap >= 8) {
         let h = &heads[0];
         for k in 0..=25u8 { for e in [&[0x80u8][..], &[0xd9, 0x01, 0x02, 0x80], &[0xa0], &[0x9f, 0xff], &[0xf6]] {
             let mut v = enc_min(5, h.arg + 1); v.extend_from_slice(&seed[h.hlen..]); v.extend(enc_min(0, k as u64)); v.extend_from_slice(e); out.push(("add-field".into(), v));
-            if rng.chance(1, 4) { let mut w = vec![0xa1u8]; w.extend(enc_min(0, k as u64)); w.extend_from_slice(e); out.push(("one-field".into(), w)); }
         } }
+    }
+    // every one-field map with an empty collection (once per type: it does not depend on the seed)
+    if heads[0].major == 5 && one_field {
+        for k in 0..=25u8 { for e in [&[0x80u8][..], &[0xd9, 0x01, 0x02, 0x80], &[0xa0], &[0x9f, 0xff], &[0xf6]] {
+            let mut w = vec![0xa1u8]; w.extend(enc_min(0, k as u64)); w.extend_from_slice(e); out.push(("one-field".into(), w)); } }
     }
     // byte substitutions anywhere
     for _ in 0..8 { let mut v = seed.to_vec(); let k = rng.below(n as u64) as usize; v[k] = rng.next() as u8; out.push(("subst".into(), v)); }
@@ -314,12 +319,66 @@ pub fn mutate_json(js: &str, rng: &mut Rng, out: &mut Vec<(String, String)>) {
             out.push(("j-str-upper".into(), format!("{}\"{}\"{}", &js[..s], inner.to_uppercase(), &js[e..])));
         }
     }
+    // long / non-ASCII keys inserted into objects, and in place of strings (unknown variant names, text in error messages)
+    let tt = tricky_texts();
+    let opens: Vec<usize> = js.match_indices('{').map(|(i, _)| i).take(3).collect();
+    for &p in &opens { for _ in 0..6 { let t = &tt[rng.below(tt.len() as u64) as usize];
+        out.push(("j-longkey".into(), format!("{}\"{}\":0,{}", &js[..p + 1], t, &js[p + 1..]))); } }
+    for _ in 0..6 { if toks.is_empty() { break; } let (s0, e0, k) = toks[rng.below(toks.len() as u64) as usize]; if k != b's' { continue; }
+        let t = &tt[rng.below(tt.len() as u64) as usize]; out.push(("j-longstr".into(), format!("{}\"{}\"{}", &js[..s0], t, &js[e0..]))); }
     // structure: duplicated object, array/object confusion, deep nesting, garbage
     out.push(("j-double".into(), format!("{}{}", js, js)));
     out.push(("j-wrap".into(), format!("[{}]", js))); out.push(("j-wrap".into(), format!("{{\"x\":{}}}", js)));
     for d in [64usize, 127, 128, 129, 1000, 100000] { out.push(("j-deep".into(), format!("{}{}{}", "[".repeat(d), js, "]".repeat(d)))); out.push(("j-deep-open".into(), "[".repeat(d))); out.push(("j-deep-obj".into(), format!("{}1{}", "{\"a\":".repeat(d), "}".repeat(d)))); }
     if let Some(p) = js.find('{') { if let Some(q) = js[p..].find(':') { let key = &js[p + 1..p + q]; out.push(("j-dupkey".into(), format!("{}{{{}:null,{}", &js[..p], key, &js[p + 1..]))); out.push(("j-dupkey".into(), format!("{}{{{}:{},{}", &js[..p], key, "{}", &js[p + 1..]))); } }
     for g in ["", " ", "null", "true", "[]", "{}", "0", "\"\"", "[", "{", "\"", "{\"a\"}", "[1,]", "{,}", "nan", "NaN", "Infinity", "-", "\u{feff}{}", "/**/1", "'a'", "[1 2]", "{\"a\":1,}", "\"\\", "\"\\u12\"", "1e99999", "-1e99999", "[1e-400]"] { out.push(("j-garbage".into(), g.to_string())); }
+}
+
+// ------------------------------------------------------------------------------------------------ attacker-controlled text in error paths
+/// UTF-8 texts whose multi-byte characters sit at every offset around 16 / 32 / 48 / 64 bytes (a message that quotes a
+/// key and cuts it at a byte offset must not split a character), plus short, long and all-multi-byte ones
+pub fn tricky_texts() -> Vec<String> {
+    let mut v: Vec<String> = vec!["k".into(), "é".into(), "\u{1F600}".into(), "x".repeat(200), "é".repeat(100), "\u{1F600}".repeat(50), "€".repeat(40), String::new()];
+    for b in [16usize, 32, 48, 64] { for ch in ["é", "€", "\u{1F600}"] { let w = ch.len();
+        for start in (b + 1 - w)..=b { if start == 0 { continue; }
+            let head = "a".repeat(start);
+            v.push(format!("{}{}{}", head, ch, "b".repeat(3)));                       // just past the boundary
+            v.push(format!("{}{}{}", head, ch, "b".repeat(200 - start - w)));         // 200 bytes
+        } } }
+    v
+}
+pub fn cbor_text(t: &str) -> Vec<u8> { let mut v = enc_min(3, t.len() as u64); v.extend_from_slice(t.as_bytes()); v }
+
+/// map structures with text keys / over-long values, variant arrays with a text where the index belongs
+pub fn mutate_text_paths(seed: &[u8], rng: &mut Rng, full: bool, out: &mut Vec<(String, Vec<u8>)>) {
+    let heads = match scan(seed) { Some(h) if !h.is_empty() => h, _ => return };
+    let n = seed.len();
+    let texts = tricky_texts();
+    let pick: Vec<&String> = if full { texts.iter().collect() } else { (0..24).map(|_| &texts[rng.below(texts.len() as u64) as usize]).collect() };
+    let maps: Vec<&Head> = heads.iter().filter(|h| h.major == 5 && h.ai != 31 && !h.inner && h.depth <= 2 && h.end <= n).take(4).collect();
+    for (mi, h) in maps.iter().enumerate() {
+        let body = &seed[h.off + h.hlen..h.end];
+        let keys: Vec<&String> = if mi == 0 { pick.clone() } else { pick.iter().take(8).cloned().collect() };
+        for t in keys {
+            let k = cbor_text(t);
+            // the text key as one more entry at the end / at the beginning, in the definite and the indefinite form
+            let mut a = seed[..h.off].to_vec(); a.extend(enc_min(5, h.arg + 1)); a.extend_from_slice(body); a.extend_from_slice(&k); a.push(0x00); a.extend_from_slice(&seed[h.end..]); out.push(("textkey-end".into(), a));
+            let mut b = seed[..h.off].to_vec(); b.extend(enc_min(5, h.arg + 1)); b.extend_from_slice(&k); b.push(0x00); b.extend_from_slice(body); b.extend_from_slice(&seed[h.end..]); out.push(("textkey-start".into(), b));
+            if mi == 0 { let mut c = seed[..h.off].to_vec(); c.push(0xbf); c.extend_from_slice(body); c.extend_from_slice(&k); c.push(0x00); c.push(0xff); c.extend_from_slice(&seed[h.end..]); out.push(("textkey-indef".into(), c)); }
+        }
+    }
+    // a lone text key / text item where the type starts
+    if heads[0].major == 5 || heads[0].major == 4 { for t in pick.iter().take(10) { let k = cbor_text(t);
+        let mut a = vec![0xa1u8]; a.extend_from_slice(&k); a.push(0x00); out.push(("textkey-only".into(), a));
+        let mut b = vec![0x82u8]; b.extend_from_slice(&k); b.push(0x00); out.push(("textvariant".into(), b)); } }
+    // over-long text / byte values in place of every value of the outer maps, and in place of a variant index
+    let long_vals: Vec<Vec<u8>> = vec![cbor_text(&texts[rng.below(texts.len() as u64) as usize]), cbor_text(&"z".repeat(5000)), cbor_text(&"\u{1F600}".repeat(300)),
+        { let mut v = enc_min(2, 5000); v.extend(vec![0xabu8; 5000]); v }, { let mut v = enc_min(2, 65); v.extend(rng.bytes(65)); v }];
+    let mut nv = 0;
+    for h in heads.iter().filter(|h| h.map_value && h.depth <= 3 && !h.inner && h.end <= n) { if nv >= 12 { break; } nv += 1;
+        for lv in &long_vals { out.push(("longvalue".into(), splice(seed, h.off, h.end, lv))); } }
+    if heads[0].major == 4 && heads.len() > 1 && heads[1].major == 0 && heads[1].end <= n { for t in pick.iter().take(8) {
+        out.push(("textvariant".into(), splice(seed, heads[1].off, heads[1].end, &cbor_text(t)))); } }
 }
 
 // ------------------------------------------------------------------------------------------------ case construction
@@ -335,11 +394,12 @@ fn aliases(ty: &str) -> &'static [&'static str] {
         "PlutusData" => &["ConstrPlutusData", "PlutusMap", "PlutusList", "BigInt", "Redeemer"],
         "TransactionMetadatum" => &["MetadataMap", "MetadataList", "TransactionMetadatumLabels", "Int"],
         "Transaction" => &["FixedTransaction"],
-        "TransactionBody" => &["FixedTransactionBody", "FixedTransaction.new_from_body_bytes"],
+        "TransactionBody" => &["FixedTransactionBody", "FixedTransaction.new_from_body_bytes", "FixedTransaction.new"],
         "Block" => &["FixedBlock", "VersionedBlock", "FixedVersionedBlock"],
         "TransactionOutput" => &["TransactionUnspentOutput"],
         "TransactionOutputs" => &["TransactionBodies", "FixedTransactionBodies"],
-        "TransactionWitnessSet" => &["TransactionWitnessSets"],
+        "TransactionWitnessSet" => &["FixedTxWitnessesSet", "FixedTransaction.new.wits", "TransactionWitnessSets"],
+        "AuxiliaryData" => &["FixedTransaction.new_with_auxiliary.aux"],
         "PlutusScripts" => &["PlutusScript", "PlutusScript.v2", "PlutusScript.v3", "AssetNames", "GenesisHashes", "ScriptHashes"],
         "Credentials" => &["RewardAddresses", "Committee"],
         "Costmdls" => &["CostModel", "Language"],
@@ -358,7 +418,9 @@ fn wrap_type(ty: &str, seed: &[u8]) -> Vec<(String, Vec<u8>)> {
     let arr1 = |b: &[u8]| { let mut x = vec![0x81u8]; x.extend_from_slice(b); x };
     match ty {
         "TransactionBody" => { v.push(("TransactionBodies".to_string(), arr1(seed))); v.push(("FixedTransactionBodies".to_string(), arr1(seed))); }
-        "TransactionWitnessSet" => v.push(("TransactionWitnessSets".to_string(), arr1(seed))),
+        "TransactionWitnessSet" => { v.push(("TransactionWitnessSets".to_string(), arr1(seed)));
+            let mut tx = vec![0x84u8, 0xa3, 0x00, 0xd9, 0x01, 0x02, 0x80, 0x01, 0x80, 0x02, 0x00]; tx.extend_from_slice(seed); tx.extend([0xf5, 0xf6]);
+            v.push(("FixedTransaction".to_string(), tx.clone())); v.push(("Transaction".to_string(), tx)); }
         "Block" => { let mut x = vec![0x82u8, 0x07]; x.extend_from_slice(seed); v.push(("VersionedBlock".to_string(), x.clone())); v.push(("FixedVersionedBlock".to_string(), x)); }
         "TransactionOutput" => { let mut x = vec![0x82u8, 0x82, 0x58, 0x20]; x.extend([7u8; 32]); x.push(0x01); x.extend_from_slice(seed); v.push(("TransactionUnspentOutput".to_string(), x)); }
         "PlutusData" => { let mut x = vec![0x84u8, 0x00, 0x01]; x.extend_from_slice(seed); x.extend([0x82, 0x01, 0x02]); v.push(("Redeemer".to_string(), x)); }
@@ -414,7 +476,7 @@ fn targeted(rng: &mut Rng, cases: &mut Vec<String>) {
         { let mut v = good.clone(); v[2] = 0x19; vs.push(("byron-tag".into(), v)); }
         { let mut v = good.clone(); let l = v.len(); v[l - 1] ^= 1; vs.push(("byron-crc".into(), v)); }
         // inner structure damaged, crc recomputed (so the envelope still passes)
-        let mut inner_muts: Vec<(String, Vec<u8>)> = Vec::new(); mutate_cbor(&inner, rng, 3, &mut inner_muts);
+        let mut inner_muts: Vec<(String, Vec<u8>)> = Vec::new(); mutate_cbor(&inner, rng, 3, false, &mut inner_muts);
         for (l, im) in inner_muts.into_iter().take(if k < 10 { 400 } else { 12 }) { vs.push((format!("byron-inner-{}", l), byron_envelope(&im))); }
         for (l, v) in vs {
             push(format!("raw Address {} {}", hex_or_dash(&v), l));
@@ -514,11 +576,16 @@ pub fn build_cases(model_txt: &str, rng: &mut Rng, thorough: bool, cases: &mut V
         for _ in 0..2 { let other = *rng.pick(&dec_names); cases.push(format!("dec {} {} confusion", other, hex_or_dash(seed))); }
         let mut muts = Vec::new();
         // long encodings are run as they are; the mutation stream works on the shorter ones (the model side generates every size)
-        if seed.len() <= (if thorough { 2500 } else { 700 }) { mutate_cbor(seed, rng, cap, &mut muts); }
+        if seed.len() <= (if thorough { 2500 } else { 700 }) { mutate_cbor(seed, rng, cap, ordinal == 1, &mut muts); }
+        if seed.len() <= 700 && ordinal <= 3 { mutate_text_paths(seed, rng, thorough || ordinal == 1, &mut muts); }
         for (label, m) in muts {
-            if m.len() > 6000 { continue; }
+            if m.len() > 8000 { continue; }
             cases.push(format!("dec {} {} {}", ty, hex_or_dash(&m), label));
-            if rng.chance(1, 6) { let ai = rng.below(aliases(ty).len().max(1) as u64) as usize; if let Some(a) = aliases(ty).get(ai) { cases.push(format!("dec {} {} alias-{}", a, hex_or_dash(&m), label)); } }
+            // presence combinations and text in error paths go through every entry point that shares the reader
+            let all_aliases = matches!(label.as_str(), "one-field" | "empty-field" | "add-field" | "textkey-end" | "textkey-start" | "textkey-indef" | "textkey-only" | "textvariant" | "longvalue");
+            if all_aliases { for a in aliases(ty) { cases.push(format!("dec {} {} alias-{}", a, hex_or_dash(&m), label)); }
+                for (wty, wb) in wrap_type(ty, &m) { cases.push(format!("dec {} {} wrap-{}", wty, hex_or_dash(&wb), label)); } }
+            else if rng.chance(1, 6) { let ai = rng.below(aliases(ty).len().max(1) as u64) as usize; if let Some(a) = aliases(ty).get(ai) { cases.push(format!("dec {} {} alias-{}", a, hex_or_dash(&m), label)); } }
         }
         // text entry points on the first seeds of each type
         if ordinal <= (if thorough { 6 } else { 2 }) {
@@ -554,6 +621,7 @@ pub fn build_cases(model_txt: &str, rng: &mut Rng, thorough: bool, cases: &mut V
     let docs = ["{\"a\":1,\"b\":[1,2,{\"c\":\"0x00ff\"}],\"d\":\"text\",\"e\":-5}", "[1,-1,\"x\",\"0x\",[],{}]", "{\"map\":[{\"k\":{\"int\":1},\"v\":{\"bytes\":\"00\"}}]}",
         "{\"list\":[{\"int\":-1},{\"string\":\"s\"},{\"bytes\":\"ff\"},{\"map\":[]}]}", "{\"constructor\":0,\"fields\":[{\"int\":1},{\"bytes\":\"00\"},{\"list\":[]},{\"map\":[{\"k\":{\"int\":1},\"v\":{\"int\":2}}]}]}",
         "{\"int\":18446744073709551616}", "{\"int\":-18446744073709551617}", "{\"constructor\":18446744073709551615,\"fields\":[]}", "{\"5\":\"five\",\"-3\":[],\"0x00\":{}}", "12345678901234567890123", "-9223372036854775808", "\"0x\"", "{\"bytes\":\"0\"}", "{\"string\":1}",
+        "{\"aaaaaaaaaaaaaaaaaaaaaaaaaaaaaaaaaaaaaaaaaaaaaaa\u{e9}bbb\":1}", "{\"map\":[{\"k\":{\"string\":\"aaaaaaaaaaaaaaaaaaaaaaaaaaaaaaaaaaaaaaaaaaaaaaa\u{e9}bbbbbbbbbbbbbbbbbbbbbbbbbbbbbbbbbbbbbb\"},\"v\":{\"int\":1}}]}",
         "{\"constructor\":-1,\"fields\":[]}", "{\"constructor\":0}", "{\"fields\":[]}", "{\"int\":1,\"bytes\":\"00\"}", "{\"a\":null}", "[true]", "1.5", "{\"int\":1.5}", "{\"list\":{}}", "{\"map\":[{\"k\":{\"int\":1}}]}", "{\"map\":[1]}",
         &format!("\"{}\"", "x".repeat(65)), &format!("\"0x{}\"", "00".repeat(65)), &format!("{{\"string\":\"{}\"}}", "y".repeat(65)), &format!("{{\"bytes\":\"{}\"}}", "ab".repeat(65))];
     for d in docs.iter() { let mut jm = vec![("j-doc".to_string(), d.to_string())]; if thorough { mutate_json(d, rng, &mut jm); } else { let mut t = Vec::new(); mutate_json(d, rng, &mut t); for _ in 0..40 { jm.push(t[rng.below(t.len() as u64) as usize].clone()); } }
@@ -581,7 +649,7 @@ pub fn expand_json(cases: Vec<String>, rng: &mut Rng, thorough: bool, run: &dyn 
 
 /// the short-input sweep: every input of length <= 1 for every entry point; length 2 complete (thorough) or sampled (quick)
 pub fn build_sweep(rng: &mut Rng, thorough: bool, sweep: &mut Vec<String>) {
-    let second: Vec<u8> = if thorough { (0..=255u8).collect() } else { let mut v = vec![0x00u8, 0xff]; for _ in 0..2 { v.push(rng.next() as u8); } for c in [0x17u8, 0x18, 0x1f, 0x40, 0x5f, 0x80, 0x81, 0x9f, 0xa0, 0xa1, 0xbf, 0xc2, 0xd8, 0xf6] { if rng.chance(1, 7) { v.push(c); } } v };
+    let second: Vec<u8> = if thorough { (0..=255u8).collect() } else { let mut v = vec![0x00u8, rng.next() as u8]; v.push(*rng.pick(&[0xffu8, 0x17, 0x18, 0x1f, 0x40, 0x5f, 0x80, 0x81, 0x9f, 0xa0, 0xa1, 0xbf, 0xc2, 0xd8, 0xf6])); v };
     for (kind, names) in [("dec", all_dec_names()), ("raw", all_raw_names())] { for ty in names {
         if ty == "Bip32PrivateKey.bip39" { continue; }
         sweep.push(format!("{} {} -", kind, ty));
@@ -589,7 +657,7 @@ pub fn build_sweep(rng: &mut Rng, thorough: bool, sweep: &mut Vec<String>) {
         for a in 0..=255u8 { for b in &second { sweep.push(format!("{} {} {:02x}{:02x}", kind, ty, a, b)); } }
     } }
     let ascii: Vec<u8> = (0..128u8).collect();
-    let second_t: Vec<u8> = if thorough { ascii.clone() } else { vec![b'0', b'f', b'z', b'1', b'"', b'[', b'{', b' ', (rng.below(128)) as u8] };
+    let second_t: Vec<u8> = if thorough { ascii.clone() } else { vec![b'0', b'z', *rng.pick(&[b'f', b'1', b'"', b'[', b'{', b' ']), (rng.below(128)) as u8] };
     for (kind, names) in [("hex", all_hex_names()), ("json", all_json_names()), ("b32", all_b32_names())] { for ty in names {
         sweep.push(format!("{} {} -", kind, ty));
         for a in &ascii { sweep.push(format!("{} {} {:02x}", kind, ty, a)); }
